@@ -127,7 +127,7 @@ func zzH_c04_stream() {
 //
 //verif:property C04
 //verif:expect-reach end
-//verif:bound message of 130 symbolic bytes, two split points each ranging over {0,1,63,64,65,127,128,129,130} (quick) / all 0..130 (thorough)
+//verif:bound message of 130 symbolic bytes, two split points each ranging over {0,1,63,64,65,127,128,129,130} (quick) / the first over all 0..130, the second over that list (thorough)
 //verif:unwind 300
 func zzH_c04_split() {
 	m := vBytes("m", 130, 130)
@@ -137,8 +137,11 @@ func zzH_c04_split() {
 		i = pts[vChoice("i", len(pts))]
 		j = pts[vChoice("j", len(pts))]
 	} else {
+		// every first split point, the second one over the block-boundary list (all pairs: 8646
+		// paths, just over the 600 s budget)
+		pts := []int{0, 1, 63, 64, 65, 127, 128, 129, 130}
 		i = vChoice("i", 131)
-		j = vChoice("j", 131)
+		j = pts[vChoice("j", len(pts))]
 	}
 	vAssume(i <= j)
 	h := New()
